@@ -24,6 +24,9 @@ pub fn truths() -> Vec<Truth> {
         Truth { name: "uint256", width: 256, chain: vec![Bytes, Numeric, UnsignedNumeric] },
         Truth { name: "int64", width: 64, chain: vec![Bytes, Numeric, SignedNumeric] },
         Truth { name: "address", width: 160, chain: vec![Bytes, Address] },
+        // an address that is also used numerically: the tool's documented compatibility table ("addresses are
+        // often used numerically") puts Address above Numeric and Unsigned
+        Truth { name: "address-used-numerically", width: 160, chain: vec![Bytes, Numeric, UnsignedNumeric, Address] },
         Truth { name: "bool", width: 8, chain: vec![Bytes, Bool] },
         Truth { name: "bytes32", width: 256, chain: vec![Bytes] },
         Truth { name: "selector", width: 32, chain: vec![Bytes, Selector] },
@@ -395,10 +398,10 @@ impl Check for C15 {
             total.get("judgement_sets").max(1),
             total.get("unifications").max(1),
             total.get("unifications"),
-            "hidden ground truths: 9 word types (uint8/64/256, int64, address, bool, bytes32, selector, function) and mapping / dynamic \
+            "hidden ground truths: 10 word types (uint8/64/256, int64, address, address used numerically, bool, bytes32, selector, function) and mapping / dynamic \
              array / fixed array over component variables of type uint256, address, bool. Evidence = every subset of <= 3 weakenings \
              of the truth on one variable plus every subset of <= 2 on a second variable declared equal (width known or not, usage \
-             anywhere below the true one on its chain: Bytes < Numeric < Unsigned | Signed, Bytes < Address | Bool | Selector | \
+             anywhere below the true one on its chain: Bytes < Numeric < Unsigned | Signed, Bytes < Numeric < Unsigned < Address, Bytes < Address | Bool | Selector | \
              Function), constructors stated twice through an equality with the component evidence split between the two sides. \
              Expected: the join computed on the chains (not with the tool's merge table), never a conflict, constructors kept with \
              unified components. Then the same sets with exactly one plainly contradictory judgement (different width, signed vs \
@@ -413,7 +416,7 @@ impl Check for C15 {
     }
     fn assumptions(&self, _tier: Tier) -> Vec<String> {
         vec![
-            "whether Address sits above Numeric / Unsigned is an implementation choice the statement does not fix, so that pair is never generated".into(),
+            "Address above Numeric / Unsigned follows the tool's documented compatibility table (expression.rs: \"Addresses are often used numerically\"); Signed against Address is a contradiction".into(),
             "mixes the statement calls neither plainly compatible nor plainly contradictory (dynamic bytes or arrays against small words, packed against words) are not generated".into(),
         ]
     }
